@@ -325,10 +325,10 @@ def check_template_class(ctx, case, th, h, vw):
     elif rm_ > tol:
         bad = ("template solver: momentum flux %.12g in front, %.12g behind (rel %.3g)" % (
             m1, m2, rm_), "template-momentum-flux")
-    elif abs(c1 + e1) > 1e-9 * abs(e1) or abs(c1 + e2) > 2 * tol * abs(e1):
+    elif abs(c1 + e1) > 1e-7 * abs(e1) or abs(c1 + e2) > 2 * tol * abs(e1):
         bad = ("template solver: c1 = %.12g, energy flux %.12g | %.12g" % (c1, e1, e2),
                "template-c1")
-    elif abs(c2 - m1) > 1e-9 * abs(m1) or abs(c2 - m2) > 2 * tol * abs(m1):
+    elif abs(c2 - m1) > 1e-7 * abs(m1) or abs(c2 - m2) > 2 * tol * abs(m1):
         bad = ("template solver: c2 = %.12g, momentum flux %.12g | %.12g" % (c2, m1, m2),
                "template-c2")
     if bad:
@@ -450,6 +450,15 @@ def scale_of(Tpm0, Tp, Tm):
         4 + (Tpm0[0] / Tp) ** 2 + (Tpm0[1] / Tm) ** 2)
 
 
+def relative_residual(info, vp, vm, Tp, Tm):
+    """max(|r1|/vp^2, |r2|/vm^2) of the final 2x2 solve (None if there was none)"""
+    if info is None:
+        return None
+    c = scale_of(info["Tpm0"], Tp, Tm)
+    f = np.asarray(info["sol"].fun, dtype=float)
+    return max(abs(float(f[0]) / c) / (vp * vp), abs(float(f[1]) / c) / (vm * vm))
+
+
 def refine_zero(info):
     """an exact zero of the captured residual closure near the returned point"""
     from scipy.optimize import root as sroot
@@ -517,9 +526,11 @@ def failure_key(h, vw, kind, fallback, state, slow_fallback_mech=False):
             # vBracketLow (vw up to vBracketLow * vw/v+, not only vw < 1.5e-3)
             return "slow-wall-template-fallback"
         return GENERIC_KEY.get(kind, kind)
-    if kind == "residual-not-small" and state == "ok" and corner:
+    if kind == "residual-not-small" and state == "ok" and h.vMin == h.vBracketLow and \
+            vw < 3.2 * h.vBracketLow:
         # hybr reports success (its step criterion is met) at a point where the residual
-        # is not small against vp^2 ~ 1e-6: third member of the slow-wall family
+        # is not small against vp^2 <= 1e-5 (vw < 3.2e-3): third member of the slow-wall
+        # family
         return "slow-wall-residual-not-small"
     if kind in CONSEQUENCE:
         if state == "accepted":
@@ -549,6 +560,7 @@ RECORDED = [   # inputs of the recorded findings, replayed first on every run
     (dict(kind="traced", D=0.2, E=0.05, lam=0.08, T0=80.0, Tn=84.108), 0.0010011),
 ]
 
+RELRES_MAX = 1e-3   # largest residual / (vp^2 or vm^2) of a solve that reports success
 K_ACC = 200.0     # returned (Tp, Tm) within K_ACC * xtol * Tn (+1e-9 rel.) of an exact zero of
 #                   the captured residual: hybr's xtol (= self.atol) bounds the relative step in
 #                   the mapped variables, dT <= (TMax-TMin)/(2 pi) * xtol ~ 1.6 Tn xtol
@@ -669,9 +681,20 @@ def check_point(ctx, case, th, h, vw, stats=None):
         else:
             bads.append(("deflagration/hybrid matching not obtained from a 2x2 solve of "
                          "`matching`", "deflag-no-root-call"))
+        if r is not None and branch != "detonation":
+            # a converged 2x2 solve leaves residuals that are small against the quantities
+            # they are solved for (measured on the unchanged tree: <= 1e-6 except slow walls)
+            relres = max(abs(r[0]) / (vp * vp), abs(r[1]) / (vm * vm))
+            rec["relres"] = relres
+            if relres > RELRES_MAX and state == "ok":
+                bads.append(("the final 2x2 solve reports success but its residual r = %r is "
+                             "%.3g of vp^2, vm^2 = %.3g, %.3g; fluxes differ by %.3g / %.3g"
+                             % (r, relres, vp * vp, vm * vm, re_, rm_),
+                             "residual-not-small"))
         if r is not None:
             bound = derived_flux_bound(th, vp, vm, Tp, Tm, *r)
-            if bound is None and admissible(th, Tp, Tm) and float(th.csqLowT(Tm)) > 0:
+            if bound is None and admissible(th, Tp, Tm) and float(th.csqLowT(Tm)) > 0 \
+                    and not any(k == "residual-not-small" for _, k in bads):
                 # the theorems' sign conditions hold, but the residual is as large as the
                 # quantities it is solved for (vm^2 + r2 <= 0 or vp vm + A <= 0)
                 bads.append(("the code's residual at the returned point, r = %r, is not "
@@ -1194,7 +1217,8 @@ def run(ctx):
             ctx.broken.append("harness: traced model raised")
     good = [r for r in stats if "bad" not in r]
     for fld, name in (("mis_over_bound", "flux mismatch / bound derived from the residual"),
-                      ("dist_over_tol", "distance to the exact zero / tolerance")):
+                      ("dist_over_tol", "distance to the exact zero / tolerance"),
+                      ("relres", "relative residual of a successful 2x2 solve")):
         vals = [r for r in good if fld in r]
         if vals:
             w = max(vals, key=lambda r: r[fld])
